@@ -34,6 +34,8 @@ def inventory(prog, keys):
                 sites[(k, i)] = ("assert", t["msg"], common.where(t))
             elif t["k"] == "call" and t["callee"] is not None:
                 c = t["callee"]
+                if c["name"] in ("index", "index_mut") and any("RangeFull" in str(a) for a in (c.get("orig_args") or []) + (c.get("args") or [])):
+                    continue  # `x[..]`: the whole slice, no bound to violate
                 for p in {c["path"], c["orig"]}:
                     if prog.is_ws(p):
                         continue
